@@ -25,6 +25,11 @@ def check_C08(c):
     # quotes and backslashes: every text up to length 6 / 7 over " \ a blank (terminated, unterminated, escaped, escaped escape)
     for s in gen.all_strings(['"', '\\', 'a', ' '], _q(c, 6, 7), 2):
         jobs.append(('tr_lex', dict(text=s, triple=False)))
+    # the inside of an alignment (tilde, prefix letter, period, digits, commas) next to blanks and symbols, and the seams
+    # between role, symbol, alignment and parenthesis: every text up to length 5 / 6 over two small alphabets
+    for small in (['~', 'e', '.', '1', ',', ' ', 'a'], [':', 'a', '-', '~', '1', ' ', '(']):
+        for s in gen.all_strings(small, _q(c, 5, 6), 2):
+            jobs.append(('tr_lex', dict(text=s, triple=False)))
     # sample of the next lengths
     for ln, cnt in _q(c, [(4, 4000), (5, 2500), (6, 1500)], [(5, 150000), (6, 60000), (7, 30000)]):
         for s in gen.sample_strings(c.rng, alpha, ln, cnt):
